@@ -105,9 +105,31 @@ def gen_constants():
     return None
 
 
+def coq_project_text():
+    """_CoqProject is generated: every .v under coq/ (except Pins/, which are compiled per check)"""
+    files = []
+    for root, dirs, fs in os.walk(COQ):
+        dirs.sort()
+        for fn in sorted(fs):
+            if fn.endswith(".v"):
+                rel = os.path.relpath(os.path.join(root, fn), COQ)
+                if rel.startswith("Pins" + os.sep):
+                    continue
+                files.append(rel)
+    if "Gen/Generated.v" not in files:
+        files.append("Gen/Generated.v")
+    head = ("-Q . SF\n-arg -w -arg -notation-overridden,-deprecated-hint-without-locality,"
+            "-deprecated-instance-without-locality,-extraction-opaque-accessed,-extraction\n")
+    return head + "\n".join(sorted(files)) + "\n"
+
+
 def coq_makefile():
     mk = os.path.join(COQ, "Makefile")
     proj = os.path.join(COQ, "_CoqProject")
+    text = coq_project_text()
+    if not os.path.exists(proj) or open(proj).read() != text:
+        with open(proj, "w") as f:
+            f.write(text)
     if not os.path.exists(mk) or os.path.getmtime(mk) < os.path.getmtime(proj):
         sh("coq_makefile -f _CoqProject -o Makefile", cwd=COQ, check=True)
 
@@ -188,19 +210,20 @@ def check_pins(prop):
     return thms, err
 
 
-def build_runner():
-    model = os.path.join(COQ, "model.ml")
-    exe = os.path.join(RUNNER, "runner")
-    srcs = [model, os.path.join(RUNNER, "driver.ml"), os.path.join(RUNNER, "entries.ml")]
+def build_runner(group):
+    model = os.path.join(COQ, "model_%s.ml" % group)
+    exe = os.path.join(RUNNER, "bin", "runner_" + group)
+    srcs = [model, os.path.join(RUNNER, "driver.ml"), os.path.join(RUNNER, "build.sh"),
+            os.path.join(COQ, "Extraction", "Extract_%s.v" % group)]
     if not os.path.exists(model):
-        raise CheckError("extracted model missing")
+        raise CheckError("extracted model missing: " + model)
     if os.path.exists(exe) and all(os.path.getmtime(exe) >= os.path.getmtime(s) for s in srcs):
         return
-    sh([os.path.join(RUNNER, "build.sh")], cwd=RUNNER, check=True, timeout=900)
+    sh([os.path.join(RUNNER, "build.sh"), group], cwd=RUNNER, check=True, timeout=900)
 
 
-def run_model(entry, casefile, timeout=1800):
-    rc, out = sh([os.path.join(RUNNER, "runner"), entry, casefile], timeout=timeout,
+def run_model(group, entry, casefile, timeout=1800):
+    rc, out = sh([os.path.join(RUNNER, "bin", "runner_" + group), entry, casefile], timeout=timeout,
                  env={"OCAMLRUNPARAM": "l=1G"})
     if rc != 0:
         raise CheckError("model runner failed: " + out[-2000:])
